@@ -1,14 +1,14 @@
 SPECIFICATION GSpec
 CONSTANTS
-  States = {"A", "B", "K1"}
-  StartStates = {"A", "B"}
+  States = {"A", "K1"}
+  StartStates = {"A"}
   CleanupTargets = {"K1"}
   Keys = {"x", "y"}
   Vals = {"1", "2", "3", "4", "5", "6", "7", "8"}
   MaxLoops = 2
   Concurrent = FALSE
   Depth = 6
-  MaxCalls = 5
+  MaxCalls = 4
   MaxLevel = 400
 CONSTRAINT Bound
 INVARIANT Emit1
